@@ -23,6 +23,12 @@ operations issued from inside the sessions handler (`self` = the id being handed
   saddpush ids=N,self,N route=R data=HEX  AddSession; OnSessionAdd calls ClientSessions.PushMsg
   saddbcast ch=C route=R msg=M            AddSession; OnSessionAdd joins (C, local front, self) and broadcasts on C
   sdelpush id=N ids=.. route=R data=HEX   RemoveSession; OnSessionRemove calls ClientSessions.PushMsg
+two front-end services in one process: `reset local=F second=G` adds a second front-end service G
+(own ClientSessions, numbering its connections from 2 as well); `sadd|sdel|spush|syspush ... at=b`
+address it (`syspush` through the one `sys` entry object both services share).  The directory knows
+the services f1, f2, f3.  A broadcast observation ends with `sent=` — the `sys.pushmsg` requests
+`impls.PushMessageByIds` sent onward (front/ids/route/payload, non-empty lists only, sorted by front) —
+and `dlb=` — what the connections of the second front-end received from them.
 a membership operation arriving from another goroutine while a broadcast is in flight:
   bcastrace ch=C route=R msg=M front=F act=leave|join id=N
       broadcast on C; when the push layer is handed the tuple for front F (before it reads the id
@@ -79,9 +85,25 @@ def showObs : Obs → String
   | .removed found live => (if found then "ok" else "missing") ++ s!" live={showIds live}"
   | .delivered dl => showDl dl
 
+/-- the services the cluster directory of the harness knows -/
+def directory : List String := ["f1", "f2", "f3"]
+
+def showSent (ps : List Push) : String :=
+  "sent=" ++ ";".intercalate (((sortPushes ps).filter (fun p => !p.ids.isEmpty)).map fun p =>
+    s!"{p.front}/{showIds p.ids}/{p.route}/{hexOfBytes (ser p.msg)}")
+
+/-- a broadcast observation also tells what was sent onward and what the second front-end's
+connections got; everything else is `showObs` -/
+def showObsW (lf bname : String) (blive : List Nat) : Obs → String
+  | .pushes ps dl =>
+    let sent := forwarded lf directory ps
+    showObs (.pushes ps dl) ++ " " ++ showSent sent ++ " dlb=" ++
+      ((showDl (remoteDeliveries ser bname blive sent)).drop 3).toString
+  | o => showObs o
+
 /-- parsed op line -/
 inductive Cmd
-  | reset (lf : String)
+  | reset (lf : String) (second : String)
   | op (o : Op)
   | many (os : List Op)
   | alloc (slot : String)
@@ -105,7 +127,10 @@ def maxRange : Nat := 5000
 def parseCmd (line : String) : Cmd :=
   let ws := words line
   match ws.head? with
-  | some "reset" => match kv ws "local" with | some lf => .reset lf | none => .bad
+  | some "reset" =>
+    match kv ws "local" with
+    | some lf => let g := (kv ws "second").getD ""; .reset lf (if g == lf then "" else g)
+    | none => .bad
   | some "addch" => match kv ws "ch" with | some c => .op (.addch c) | none => .bad
   | some "getch" => match kv ws "ch" with | some c => .op (.getch c) | none => .bad
   | some "delch" => match kv ws "ch" with | some c => .op (.delch c) | none => .bad
@@ -174,10 +199,13 @@ def parseCmd (line : String) : Cmd :=
 structure DSt where
   st : St := init ""
   slots : List String := []
+  b : Front := ⟨[], 1⟩        -- the second front-end service's sessions
+  bname : String := ""        -- its name ("" = there is none)
 
-def stepLine (d : DSt) (line : String) : DSt × String :=
+def stepCore (d : DSt) (line : String) : DSt × String :=
+  let showObs := showObsW d.st.localFront d.bname d.b.live
   match parseCmd line with
-  | .reset lf => ({ st := init lf, slots := [] }, "ok")
+  | .reset lf g => ({ st := init lf, slots := [], b := ⟨[], 1⟩, bname := g }, "ok")
   | .op o => let r := step ser d.st o; ({ d with st := r.1 }, showObs r.2)
   | .many os => ({ d with st := run ser d.st os }, "ok")
   | .syspush o => let r := step ser d.st o; ({ d with st := r.1 }, showObs r.2 ++ " cb=1")
@@ -185,7 +213,7 @@ def stepLine (d : DSt) (line : String) : DSt × String :=
     if d.slots.contains k then (d, "bad-op")
     else
       let r := step ser d.st (.addch ("@" ++ k))
-      ({ st := r.1, slots := k :: d.slots }, showObs r.2)
+      ({ d with st := r.1, slots := k :: d.slots }, showObs r.2)
   | .free k =>
     if d.slots.contains k then
       let r := step ser d.st (.delch ("@" ++ k))
@@ -223,6 +251,29 @@ def stepLine (d : DSt) (line : String) : DSt × String :=
     ({ d with st := r2.1 }, showObs r1.2)
   | .bad => (d, "bad-op")
 
+def sessionHeads : List String := ["sadd", "sdel", "spush", "syspush"]
+
+/-- `at=b` on a session operation: the same operation on the second front-end's sessions -/
+def atB (line : String) : Option (Option String) :=
+  let ws := words line
+  if sessionHeads.contains (ws.head?.getD "") then
+    match kv ws "at" with
+    | none => some none
+    | some "a" => some none
+    | some "b" => some (some (" ".intercalate (ws.filter (· != "at=b"))))
+    | some _ => Option.none
+  else some none
+
+def stepLine (d : DSt) (line : String) : DSt × String :=
+  match atB line with
+  | none => (d, "bad-op")
+  | some none => stepCore d line
+  | some (some inner) =>
+    if d.bname == "" then (d, "bad-op")
+    else
+      let r := stepCore { d with st := { d.st with front := d.b }, b := d.st.front } inner
+      ({ r.1 with st := { r.1.st with front := d.st.front }, b := r.1.st.front }, r.2)
+
 /-! ### the property predicate on implementation observations -/
 
 structure Spec where
@@ -231,6 +282,8 @@ structure Spec where
   grp : List ((String × String) × List Nat) := []    -- (channel, front) ↦ listed ids; present = addressed
   created : Nat := 0
   live : List Nat := []
+  liveB : List Nat := []                             -- live connections of the second front-end service
+  bname : String := ""
   slots : List String := []
   dead : Bool := false                               -- a crash was reported: nothing more is judged until the next reset
 
@@ -332,14 +385,29 @@ def checkBcast (s : Spec) (c route msg obs : String) : Option String :=
         | some p => some s!"wrong-route-or-payload front={p.front} route={p.route} msg={p.msg}"
         | none =>
           let wantDl := expectDl s.live (listedFor s.lf) route (hexOfBytes (ser msg))
-          if dl == wantDl then none
+          let hex := hexOfBytes (ser msg)
+          -- one sys.pushmsg per other known front-end that has listed members, carrying exactly its list
+          let remote := ((directory.filter (fun f => f != s.lf && !(listedFor f).isEmpty)).map fun f =>
+            s!"{f}/{showIds (listedFor f)}/{route}/{hex}")
+          let wantSent := ";".intercalate remote
+          let wantDlb := if s.bname != "" && s.bname != s.lf && directory.contains s.bname
+                         then expectDl s.liveB (listedFor s.bname) route hex else []
+          if dl == wantDl then
+            match kv rws "sent", (kv rws "dlb").bind parseDl with
+            | some sent, some dlb =>
+              if sent != wantSent then
+                some s!"remote-front-push-mismatch requests sent onward [{sent.take 300}] but the other front-ends with members are [{wantSent.take 300}]"
+              else if dlb != wantDlb then
+                some s!"other-front-delivery-mismatch connections of {s.bname} received ids [{brief (dlb.map (·.1))}] but listed for it are [{brief (listedFor s.bname)}] and its live sessions are [{showIds s.liveB}]"
+              else none
+            | _, _ => some ("unparseable-observation " ++ (obs.take 300).toString)
           else some s!"local-delivery-mismatch connections of {s.lf} received {dl.length} pushes (ids [{brief (dl.map (·.1))}]) but listed are [{brief (listedFor s.lf)}] and live sessions are [{showIds s.live}]"
       | _, _, _ => some ("unparseable-observation " ++ obs.take 300)
     | _ => some ("unparseable-observation " ++ obs.take 300)
 
 def viol (reason op : String) : String := "VIOLATION C16/" ++ reason ++ " | op: " ++ op
 
-def specStep (s : Spec) (line : String) : Spec × String :=
+def specCore (s : Spec) (line : String) : Spec × String :=
   match line.splitOn "\t" with
   | [op, obs] =>
     if s.dead && !op.startsWith "reset" then (s, "ok")
@@ -350,7 +418,7 @@ def specStep (s : Spec) (line : String) : Spec × String :=
     let expectOk (what : String) : Option String := if obs == "ok" then none else some (what ++ " " ++ obs)
     match parseCmd op with
     | .bad => (s, "ok")
-    | .reset lf => ({ lf := lf }, "ok")
+    | .reset lf g => ({ lf := lf, bname := g }, "ok")
     | .alloc k =>
       if s.slots.contains k then (s, "ok")
       else
@@ -431,6 +499,20 @@ def specStep (s : Spec) (line : String) : Spec × String :=
               else if obs.startsWith ((if found then "ok" else "missing") ++ s!" live={showIds s1.live} ") then
                 some s!"session-remove-callback-push-mismatch want [{w}] got [{obs}]"
               else some s!"session-set-mismatch want [{w}] got [{obs}]")
+  | _ => (s, "bad-line")
+
+def specStep (s : Spec) (line : String) : Spec × String :=
+  match line.splitOn "\t" with
+  | [op, obs] =>
+    match atB op with
+    | some (some inner) =>
+      if s.bname == "" || s.dead then (s, "ok")
+      else
+        -- the same predicate, on the second front-end's own connection table
+        let r := specCore { s with live := s.liveB, liveB := s.live } (inner ++ "\t" ++ obs)
+        ({ r.1 with live := r.1.liveB, liveB := r.1.live },
+          if r.2.startsWith "VIOLATION" then r.2 ++ " (addressed to the second front-end " ++ s.bname ++ ")" else r.2)
+    | _ => specCore s line
   | _ => (s, "bad-line")
 
 end Cell2v.Driver.C16
